@@ -13,6 +13,7 @@ import (
 	"syscall"
 	"time"
 
+	natsserver "github.com/nats-io/nats-server/v2/server"
 	"github.com/nats-io/nats.go"
 	"github.com/simpleiot/simpleiot/client"
 	"github.com/simpleiot/simpleiot/data"
@@ -132,6 +133,8 @@ type InstCfg struct {
 	Clients func(nc *nats.Conn) []client.RunStop
 	// Ports, if set, are reused (NATS, HTTP, NATS-HTTP, NATS-WS): a restarted instance keeps its address
 	Ports [4]int
+	// ExternalNats: do not start the embedded bus server; a NATS server is already listening on Ports[0]
+	ExternalNats bool
 }
 
 // Instance is a running in-process instance.
@@ -150,6 +153,30 @@ type Instance struct {
 	conns    []*nats.Conn
 	mu       sync.Mutex
 	fresh    bool
+}
+
+// BareNats is a NATS server without a Simple IoT instance behind it (an upstream whose bus is already
+// reachable while its store is not answering yet).
+type BareNats struct{ S *natsserver.Server }
+
+// StartBareNats starts a NATS server on the given port.
+func StartBareNats(port int, token string) (*BareNats, error) {
+	ns, err := natsserver.NewServer(&natsserver.Options{Host: "127.0.0.1", Port: port, Authorization: token, NoSigs: true, NoLog: true})
+	if err != nil {
+		return nil, fmt.Errorf("%w: bare nats: %v", ErrInfra, err)
+	}
+	go ns.Start()
+	if !ns.ReadyForConnections(10 * time.Second) {
+		ns.Shutdown()
+		return nil, fmt.Errorf("%w: bare nats server not ready on port %d", ErrInfra, port)
+	}
+	return &BareNats{S: ns}, nil
+}
+
+// Stop shuts the server down.
+func (b *BareNats) Stop() {
+	b.S.Shutdown()
+	b.S.WaitForShutdown()
 }
 
 // ErrInfra marks failures of the harness infrastructure (inconclusive, not violations).
@@ -200,14 +227,15 @@ func startInstanceOnce(cfg InstCfg) (*Instance, error) {
 	in.Ports = ports
 	np := ports[0]
 	in.Opts = server.Options{
-		StoreFile:    cfg.StoreFile,
-		NatsPort:     np,
-		HTTPPort:     strconv.Itoa(ports[1]),
-		NatsHTTPPort: ports[2],
-		NatsWSPort:   ports[3],
-		NatsServer:   fmt.Sprintf("nats://127.0.0.1:%d", np),
-		AuthToken:    cfg.AuthToken,
-		ID:           cfg.ID,
+		StoreFile:         cfg.StoreFile,
+		NatsPort:          np,
+		HTTPPort:          strconv.Itoa(ports[1]),
+		NatsHTTPPort:      ports[2],
+		NatsWSPort:        ports[3],
+		NatsServer:        fmt.Sprintf("nats://127.0.0.1:%d", np),
+		AuthToken:         cfg.AuthToken,
+		ID:                cfg.ID,
+		NatsDisableServer: cfg.ExternalNats,
 		// an unparsable field keeps the node manager from writing versionOS
 		OSVersionField: "VERIF_NO_SUCH_FIELD",
 	}
